@@ -302,6 +302,25 @@ theorem complete_bounds_witness :
     (∃ f, Num.add (.rat 46341 46340) (.rat 46341 46339) = .ok (.real f)) :=
   ⟨⟨_, rfl⟩, ⟨_, rfl⟩⟩
 
+/-- The sharpest form of completeness: whenever the true result IS representable (some well-formed
+exact `x` has that value) the operation returns exactly `x`. Together with the soundness theorems:
+the result is exact iff the true result is representable, and then it is the canonical
+representation of the true result; the inexact fallback is taken only for unrepresentable
+results. -/
+theorem exact_ops_complete_repr {a b x : Num} {va vb : Rat} (pa : a.PosDen) (pb : b.PosDen)
+    (ha : a.val = some va) (hb : b.val = some vb) (hx : x.WF) :
+    (x.val = some (va + vb) → Num.add a b = .ok x) ∧
+    (x.val = some (va - vb) → Num.sub a b = .ok x) ∧
+    (x.val = some (va * vb) → Num.mul a b = .ok x) ∧
+    (vb ≠ 0 → x.val = some (va / vb) → Num.div a b = .ok x) ∧
+    (x.val = some |va| → Num.abs a = .ok x) :=
+  ⟨Num.add_repr pa pb ha hb hx, Num.sub_repr pa pb ha hb hx, Num.mul_repr pa pb ha hb hx,
+   fun h0 => Num.div_repr pa pb ha hb h0 hx, Num.abs_repr pa ha hx⟩
+
+example : (Num.int 2147483647).PosDen ∧ (Num.rat 1 2147483647).PosDen ∧
+    (Num.int 1).WF ∧ Num.mul (.int 2147483647) (.rat 1 2147483647) = .ok (.int 1) :=
+  ⟨by decide, by decide, by decide, rfl⟩
+
 /-! ## 4. division by an exact zero -/
 
 /-- Division of an exact number by an exact zero is `divZero` (any representation of zero, integer
@@ -327,42 +346,68 @@ example : (Num.int 3).PosDen ∧ (Num.rat (-1) 2).PosDen ∧ (Num.rat (-1) 2).va
 /-! ## 5. floor, ceiling, floor-quotient, floor-remainder -/
 
 /-- `floor` of an exact number (positive denominator, `i32` components) is the integer `q` with
-`q ≤ x < q + 1`; it is always representable, so never inexact. -/
+`q ≤ x < q + 1`, i.e. `q = ⌊x⌋`, the greatest integer not above `x`; it is always representable,
+so never inexact. -/
 theorem floor_spec {x : Num} {v : Rat} (hx : x.DenPos) (hv : x.val = some v) :
     ∃ q : Int, Num.floor x = .ok (.int q) ∧ fitsI32 q = true ∧
-      (q : Rat) ≤ v ∧ v < (q : Rat) + 1 ∧ ∀ m : Int, (m : Rat) ≤ v → m ≤ q := by
+      (q : Rat) ≤ v ∧ v < (q : Rat) + 1 ∧ q = ⌊v⌋ ∧ ∀ m : Int, (m : Rat) ≤ v → m ≤ q := by
   obtain ⟨q, h1, h2, h3, h4⟩ := Num.floor_spec hx hv
-  exact ⟨q, h1, h2, h3, h4, fun m hm => Num.int_le_of_lt_add_one hm h4⟩
+  exact ⟨q, h1, h2, h3, h4, (Int.floor_eq_iff.mpr ⟨h3, h4⟩).symm,
+    fun m hm => Num.int_le_of_lt_add_one hm h4⟩
 
 example : (Num.rat (-1) 2).DenPos ∧ (Num.rat (-1) 2).val = some (-1 / 2) ∧
     Num.floor (.rat (-1) 2) = .ok (.int (-1)) :=
   ⟨by decide, by norm_num [Num.val], rfl⟩
 
-/-- `ceiling`: the integer `q` with `q - 1 < x ≤ q`. -/
+/-- `ceiling`: the integer `q` with `q - 1 < x ≤ q`, i.e. `q = ⌈x⌉`. -/
 theorem ceiling_spec {x : Num} {v : Rat} (hx : x.DenPos) (hv : x.val = some v) :
     ∃ q : Int, Num.ceiling x = .ok (.int q) ∧ fitsI32 q = true ∧
-      (q : Rat) - 1 < v ∧ v ≤ (q : Rat) :=
-  Num.ceiling_spec hx hv
+      (q : Rat) - 1 < v ∧ v ≤ (q : Rat) ∧ q = ⌈v⌉ := by
+  obtain ⟨q, h1, h2, h3, h4⟩ := Num.ceiling_spec hx hv
+  exact ⟨q, h1, h2, h3, h4, (Int.ceil_eq_iff.mpr ⟨h3, h4⟩).symm⟩
 
 example : (Num.rat 1 2).DenPos ∧ (Num.rat 1 2).val = some (1 / 2) ∧
     Num.ceiling (.rat 1 2) = .ok (.int 1) :=
   ⟨by decide, by norm_num [Num.val], rfl⟩
 
 /-- Exact floor-quotient `q` and floor-remainder `r` of exact `n`, `d`: `q` is an integer `k`,
-`n = d·k + r`, and `k` is the greatest integer not above `n / d`. (No well-formedness hypothesis:
-`d ≠ 0` follows from the quotient being `ok`.) -/
+`n = d·k + r`, `k = ⌊n / d⌋` is the greatest integer not above `n / d`, and the remainder has the
+sign of the divisor and is smaller in magnitude. (No well-formedness hypothesis: `d ≠ 0` follows
+from the quotient being `ok`.) -/
 theorem floorq_floorr {n d q r : Num} {vn vd : Rat} (hn : n.val = some vn) (hd : d.val = some vd)
     (hq : Num.floorQuotient n d = .ok q) (hr : Num.floorRemainder n d = .ok r)
     (eq : q.isExact = true) (er : r.isExact = true) :
     ∃ (k : Int) (vr : Rat), q = .int k ∧ r.val = some vr ∧ vd ≠ 0 ∧
       vn = vd * (k : Rat) + vr ∧ (k : Rat) ≤ vn / vd ∧ vn / vd < (k : Rat) + 1 ∧
-      ∀ m : Int, (m : Rat) ≤ vn / vd → m ≤ k :=
-  Num.floorq_floorr hn hd hq hr eq er
+      k = ⌊vn / vd⌋ ∧ (∀ m : Int, (m : Rat) ≤ vn / vd → m ≤ k) ∧
+      (0 < vd → 0 ≤ vr ∧ vr < vd) ∧ (vd < 0 → vd < vr ∧ vr ≤ 0) := by
+  obtain ⟨k, vr, h1, h2, h3, h4, h5, h6, h7⟩ := Num.floorq_floorr hn hd hq hr eq er
+  obtain ⟨r1, r2⟩ := Num.rem_range h4 h5 h6
+  exact ⟨k, vr, h1, h2, h3, h4, h5, h6, (Int.floor_eq_iff.mpr ⟨h5, h6⟩).symm, h7, r1, r2⟩
 
-example : (Num.int (-7)).val = some (-7) ∧ (Num.int 2).val = some 2 ∧
-    Num.floorQuotient (.int (-7)) (.int 2) = .ok (.int (-4)) ∧
-    Num.floorRemainder (.int (-7)) (.int 2) = .ok (.int 1) :=
+example : (Num.rat (-7) 2).val = some (-7 / 2) ∧ (Num.rat 2 3).val = some (2 / 3) ∧
+    Num.floorQuotient (.rat (-7) 2) (.rat 2 3) = .ok (.int (-6)) ∧
+    Num.floorRemainder (.rat (-7) 2) (.rat 2 3) = .ok (.rat 1 2) :=
   ⟨by norm_num [Num.val], by norm_num [Num.val], rfl, rfl⟩
+
+/-- The integer case (`floor/`, `floor-quotient`, `floor-remainder`, `modulo`): for `|n|, |d| < 2^30`
+and `d ≠ 0` both results ARE exact integers, `⌊n/d⌋` and `n - d·⌊n/d⌋`. (Near the `i32` limits the
+intermediate product `q·d` may overflow, e.g. `n = 2^31-1`, `d = -2^31`, and the remainder becomes
+inexact — never a wrong exact number, by `floorq_floorr`.) -/
+theorem floorq_floorr_int {n d : Int} (hn : n.natAbs < 1073741824) (hd : d.natAbs < 1073741824)
+    (d0 : d ≠ 0) :
+    Num.floorQuotient (.int n) (.int d) = .ok (.int ⌊(n : Rat) / (d : Rat)⌋) ∧
+    Num.floorRemainder (.int n) (.int d) = .ok (.int (n - d * ⌊(n : Rat) / (d : Rat)⌋)) :=
+  Num.floorq_floorr_int (by omega) (by omega) d0
+
+example : Num.floorQuotient (.int (-7)) (.int 2) = .ok (.int (-4)) ∧
+    Num.floorRemainder (.int (-7)) (.int 2) = .ok (.int 1) ∧
+    Num.floorRemainder (.int 7) (.int (-2)) = .ok (.int (-1)) := ⟨rfl, rfl, rfl⟩
+
+/-- Witness for the remark above: at the `i32` limits the remainder overflows into an inexact
+number. -/
+theorem floorr_overflow_witness :
+    ∃ f, Num.floorRemainder (.int 2147483647) (.int (-2147483648)) = .ok (.real f) := ⟨_, rfl⟩
 
 /-! ## 6. inexact contagion -/
 
